@@ -42,3 +42,37 @@ OBJS = {
     "o1": _Obj("o1", p=5, q=Fraction(1, 2)),
     "o2": _Obj("o2", p=-2),
 }
+
+
+# ---- exact model of the elementary functions: mirrors MathApply of spec/Eval.tla ----
+class _MathFn:
+    _verif_kind = "fn"
+
+    def __init__(self, name, fn):
+        self._verif_name = name
+        self.fn = fn
+
+    def __call__(self, *args):
+        return self.fn(*[Fraction(a) for a in args])
+
+
+def _mk_math():
+    one, two = Fraction(1), Fraction(2)
+    ex = lambda u: one + u * u                      # noqa: E731
+    sn = lambda u: two * u / (one + u * u)          # noqa: E731
+    cs = lambda u: (one - u * u) / (one + u * u)    # noqa: E731
+    sh = lambda u: (ex(u) - one / ex(u)) / two      # noqa: E731
+    ch = lambda u: (ex(u) + one / ex(u)) / two      # noqa: E731
+    fns = {
+        "sin": sn, "cos": cs, "tan": lambda u: sn(u) / cs(u), "exp": ex,
+        "expm1": lambda u: ex(u) - one, "sinh": sh, "cosh": ch, "tanh": lambda u: sh(u) / ch(u),
+        "log": lambda u: Fraction(3) * u + Fraction(-1, 2),
+        "fabs": lambda u: -u if u < 0 else u,
+        "copysign": lambda a, b: (-abs(a) if b < 0 else abs(a)),
+    }
+    return {k: _MathFn(k, v) for k, v in fns.items()}
+
+
+MATHFNS = _mk_math()
+FUNCS.update(MATHFNS)
+OBJS["math"] = _Obj("math", **MATHFNS)
